@@ -34,8 +34,11 @@ theorem reader_success_is_silent (c : Ctx) (r : Reader) (mand : Bool) :
 /-- the outcome of every reader on the next data element is the property's table: when
 SCPI_Parameter delivers a token of type `t` with text `txt`, the reader succeeds iff `expect` says
 ok, and otherwise queues exactly the code `expect` names (-104 wrong type, -138 suffix not allowed,
--131 unknown suffix, -224 unknown choice) -/
+-131 unknown suffix, -224 unknown choice).
+Hypothesis `hopts`: for the choice reader, the option names contain neither NUL nor '#' (a name ending in '#'
+makes matchPattern accept a numeric suffix, which `nameMatches` does not describe; a NUL ends a C string) -/
 theorem reader_by_token (c : Ctx) (r : Reader) (mand : Bool) (c1 : Ctx) (tok : Token)
+    (hopts : ∀ opts, r = .choice opts → ∀ o ∈ opts, ∀ b ∈ o.1, b ≠ 0 ∧ b ≠ 35)
     (hp : parameter c mand = (c1, true, tok)) :
     let (c', ok) := runReader c r mand
     let txt := (c1.buf.drop tok.ptr).take tok.len.toNat
@@ -43,7 +46,7 @@ theorem reader_by_token (c : Ctx) (r : Reader) (mand : Bool) (c1 : Ctx) (tok : T
     | .ok => ok = true ∧ errorsSince c c' = []
     | .fail (some e) => ok = false ∧ errorsSince c c' = [e]
     | .fail none => False :=
-  Lemmas.Params.reader_by_token c r mand c1 tok hp
+  Lemmas.Params.reader_by_token c r mand c1 tok hopts hp
 
 /-- SCPI_Parameter against the data specification: at a cursor inside the program data it expects a
 comma unless this is the first parameter (else -103), then delivers exactly the next data element of
@@ -66,7 +69,10 @@ theorem parameter_delivers_next_item (c : Ctx) (mand : Bool) (h : ¬ atEnd c) (h
   Lemmas.Params.parameter_delivers_next_item c mand h hw hpos
 
 /-- error accounting of a unit: after the handler, -200 is queued iff it returned ERR without any error
-of its own, and -108 iff unread data remains and no error was queued during the unit -/
+of its own, and -108 iff unread data remains and no error was queued during the unit.
+`errorsSince` does not count events with the overflow code -350 (the marker that accompanies a push
+onto a full queue), so the characterisation of the unit's result by "no error counted" needs the
+script not to push -350 itself: with `ePush (-350)` the unit fails although nothing is counted. -/
 theorem unit_accounting (c : Ctx) (cmd : Cmd) (hc : c.cur = some cmd) :
     let c0 := { c with cmdError := false, inputCount := 0,
                        out := { c.out with outputCount := if c.out.firstOutput then 0 else -1, arbRemaining := 0 } }
@@ -76,7 +82,8 @@ theorem unit_accounting (c : Ctx) (cmd : Cmd) (hc : c.cur = some cmd) :
     let own := errorsSince c1 c2
     errorsSince c c' = own ++ (if !ok ∧ c2.cmdError = false then [-200] else []) ++
       (if c2.ppos < c2.pbase + c2.plen ∧ (c2.cmdError = false ∧ ok) then [-108] else []) ∧
-    (res = true ↔ errorsSince c c' = [] ∧ ok = true) :=
+    ((∀ info, SOp.ePush Fifo.overflowCode info ∉ cmd.script) →
+      (res = true ↔ errorsSince c c' = [] ∧ ok = true)) :=
   Lemmas.Params.unit_accounting c cmd hc
 
 end ScpiVerif.Props.C05
